@@ -145,6 +145,17 @@ func (s *replFakeStream) Send(m *rproto.WALStreamResponse) error {
 func replSendRun(dir string, seed uint64, p replSendProg, log *evLog) {
 	conc := Conc{Class: p.Class, Seed: seed}
 	keys, vals := []string{"k1", "k2", "k3"}, txVals
+	for _, st := range p.Steps {
+		for _, x := range st.Op {
+			known := false
+			for _, k := range keys {
+				known = known || k == x.K
+			}
+			if !known {
+				keys = append(keys, x.K)
+			}
+		}
+	}
 	log.ev(map[string]interface{}{"e": "reset", "id": p.ID})
 	cc := CfgClass{MemTableSize: 1 << 20, MaxMemTables: 4, SyncMode: 0, CompactSec: 3600}
 	eng, err := openEngine(dir, &cc)
